@@ -16,6 +16,8 @@ BASE_OUT = ("NODE host=node.local;realm=realm.local;idle=5;dwa=3;cer=3;cea=3;rq=
             "peer:peer1.x,realm.local,0,0,30,1,1,-,-,-,-;peer:peer2.x,realm.local,1,1,2,1,0,-,-,-,-;app:4,1,0,b,0,0+1,-")
 BASE_IN = BASE_OUT.replace("peer:peer2.x,realm.local,1,1,2,1,0", "peer:peer2.x,realm.local,0,0,2,1,0")
 OUT_KINDS = ("dial_refused", "dial_async_fail", "dial_rejected", "dial_established")
+BASE_T = BASE_IN.replace("app:4,1,0,b,0,0+1,-", "app:4,1,0,t,0,0+1,-")          # the same with a threading application
+T_KINDS = ("thread_req", "thread_req_raise")      # (a request whose handler returns no answer is not a completed transaction)
 
 
 def kinds():
@@ -108,6 +110,21 @@ def kinds():
             evs += ["rx 0 " + nodegen.ccr(n(), n(), "peer1.x")]
         return evs + ["eof 0", "tick"]
 
+    def _thread(N, outcome):
+        evs = ["start fail", "acc", "rx 0 " + nodegen.cer("peer1.x", "4", n(), n()), f"outcome 0 {outcome}"]
+        for i in range(N):
+            evs += ["rx 0 " + nodegen.ccr(n(), n(), "peer1.x"), "handler 0"]
+        return evs + ["eof 0", "tick"]
+
+    def thread_req(N):
+        return _thread(N, "answer")
+
+    def thread_req_raise(N):
+        return _thread(N, "raise")
+
+    def thread_req_none(N):
+        return _thread(N, "none")
+
     def conn_req_answered(N):
         # N connections, each carrying one request that the application answers before the connection ends
         evs = ["start fail"]
@@ -166,7 +183,8 @@ def kinds():
 
     return {"inbound_req": inbound_req, "inbound_req_norc": inbound_req_norc, "hard_write_error": hard_write_error,
             "rejected_req": rejected_req, "dup_reject": dup_reject, "dwr_in": dwr_in, "dwr_out": dwr_out,
-            "outbound_req": outbound_req, "outbound_req_timeout": outbound_req_timeout, "conn_ok": conn_ok, "inbound_req_raise": inbound_req_raise, "conn_req_answered": conn_req_answered, "conn_node_closes": conn_node_closes, "conn_unknown": conn_unknown,
+            "outbound_req": outbound_req, "outbound_req_timeout": outbound_req_timeout, "conn_ok": conn_ok, "inbound_req_raise": inbound_req_raise, "thread_req": thread_req,
+            "thread_req_raise": thread_req_raise, "conn_req_answered": conn_req_answered, "conn_node_closes": conn_node_closes, "conn_unknown": conn_unknown,
             "conn_timeout": conn_timeout, "conn_already": conn_already, "dial_refused": dial_refused,
             "dial_async_fail": dial_async_fail, "dial_rejected": dial_rejected, "dial_established": dial_established}
 
@@ -198,7 +216,7 @@ def run(res: Result, tier: str, seed: int):
     scen = []
     for name, fn in ks.items():
         for N in Ns + ([1000] if (tier != "quick" and name == "inbound_req") else []):
-            scen.append((name, N, (BASE_OUT if name in OUT_KINDS else BASE_IN) + " | " + " | ".join(fn(N))))
+            scen.append((name, N, (BASE_OUT if name in OUT_KINDS else BASE_T if name in T_KINDS else BASE_IN) + " | " + " | ".join(fn(N))))
     lines = [s for _, _, s in scen]
     reals = [run_real(l, budget=300) for l in lines]
     models = [m.split(" ## ") for m in run_driver(lines)]
